@@ -433,6 +433,11 @@ def _apply(op, a, t):
             return f(np.asarray(_f(a[0]), dtype=float))
         if op == "arctan2":
             return np.arctan2(_f(a[0]), _f(a[1]))
+        if op == "narrow":
+            x_ = np.asarray(_f(a[0]), dtype=float)
+            if str(a[1]).startswith("float"):
+                return x_.astype(getattr(np, str(a[1]))).astype(float)
+            return np.trunc(x_)
         if op in ("trunc", "sign"):
             return getattr(np, op)(np.asarray(_f(a[0]), dtype=float))
         if op == "copysign":
